@@ -44,6 +44,12 @@ import (
 //                                      activation has exactly one OnDeactivate
 //   receive-overlap                    two OnReceive of the same activation open at once (title:
 //                                      single-threaded)
+//   activate-before-previous-deactivate-returned / activate-while-previous-activation-active
+//                                      activations are ordered: OnActivate of a later activation was
+//                                      entered while OnDeactivate of an earlier one had not returned yet /
+//                                      had not run at all
+//                                      (a message that arrives while OnDeactivate is parked on its gate
+//                                      must not create a second live instance)
 //   message-after-deactivation-lost / -not-fresh   a message whose TellGrain was fired at a quiescent
 //                                      point where the latest activation had completed OnDeactivate
 //                                      (and the system was not stopping) must be received, by an
@@ -52,8 +58,9 @@ import (
 // Signatures of an execution in which the passivation manager ran OnDeactivate outside the grain's turn
 // (overlapping an open OnReceive or followed by another hook of the same activation before it returned)
 // carry the prefix "offturn-passivation:" (one root cause, several consequences).
-// Not judged (the statement is silent): messages sent while OnDeactivate is running or queued behind a
-// PoisonPill; messages in flight at system.Stop.
+// Not judged (the statement is silent): WHICH activation handles a message that was sent while
+// OnDeactivate is running or that is queued behind a PoisonPill (only the ordering rules above apply to
+// it); messages in flight at system.Stop.
 // ---------------------------------------------------------------------------------------------
 
 type c31Entry struct {
@@ -439,6 +446,24 @@ func c31Run(t *testing.T, cfg c31Cfg, c *vsched.Chooser) vsched.Outcome {
 				order = append(order, e.act)
 			}
 			switch e.kind {
+			case "act-enter":
+				// activations of one identity are ordered: a later activation must not start while an
+				// earlier one is still alive, i.e. before the earlier one's OnDeactivate has returned.
+				for _, pn := range order {
+					if pn == e.act {
+						continue
+					}
+					pa := acts[pn]
+					switch {
+					case pa.deactEnter > pa.deactEx:
+						fail("activate-before-previous-deactivate-returned", "activation %d: OnActivate entered while OnDeactivate of activation %d was still running (second live instance of the same grain during the deactivation)", e.act, pn)
+					case pa.deactEnter == 0:
+						fail("activate-while-previous-activation-active", "activation %d: OnActivate entered although activation %d had not been deactivated at all", e.act, pn)
+					}
+					// (an OnReceive of an earlier, completely deactivated activation that is still open
+					// here can only be one that was entered after that activation's OnDeactivate: it is
+					// reported as receive-after-deactivate, not a second time as an ordering failure)
+				}
 			case "act-exit":
 				a.actExit = true
 				a.actExitIdx = i
